@@ -42,6 +42,8 @@
 (*                  beginning of the file                            (C25) *)
 (*  CloseFaultWedges  a failed Close closes the descriptor but the writer  *)
 (*                  still counts as open; the buffer is gone         (C25) *)
+(*  WriteErrorsSkipped  chronicler.Write cannot open its writer, logs the  *)
+(*                  error and forgets the records (caller not told)  (C25) *)
 (***************************************************************************)
 EXTENDS Integers, Sequences, FiniteSets, TLC
 
@@ -49,7 +51,6 @@ CONSTANTS Keys,      \* key ids
           Vals,      \* value ids
           Nil,       \* "no value"
           CntLimit,  \* largest entry count a block header can hold (65535)
-          Named,     \* BOOLEAN: the file stores a swamp name after the header
           Dev        \* set of deviation names
 
 VARIABLES disk, w, pend, call, ref, fm, dur, bmaps, crashobs, cnt
@@ -126,7 +127,7 @@ Unreadable(d) == d.ex /\ d.hd = 2 /\ ~Load(d).ok
 NoDisk == [ex |-> FALSE, hd |-> 0, nb |-> 0, ne |-> 0, ch |-> <<>>, clob |-> FALSE]
 ClosedW == [open |-> FALSE, buf |-> <<>>, cur |-> <<>>, pos |-> "end", dirty |-> FALSE, nb |-> 0, ne |-> 0,
             wedged |-> FALSE]
-NoCall == [name |-> "", res |-> "", pre |-> Empty, faulted |-> FALSE]
+NoCall == [name |-> "", res |-> "", pre |-> Empty, faulted |-> FALSE, told |-> TRUE]
 NoCrash == [n |-> 0, got |-> OkRes(Empty), allowed |-> {Empty}, unreadable |-> FALSE]
 
 Init ==
@@ -137,27 +138,27 @@ Init ==
 
 Quiescent == pend = <<>>
 LastTorn(d) == d.ch # <<>> /\ IsTorn(d.ch[Len(d.ch)])
-CreateOps == <<"create", "hdr0">> \o (IF Named THEN <<"name">> ELSE <<>>)
+CreateOps(nm) == <<"create", "hdr0">> \o (IF nm THEN <<"name">> ELSE <<>>)
 
 Begin(name, ops) ==
   /\ pend' = ops
-  /\ call' = [name |-> name, res |-> IF ops = <<>> THEN "ok" ELSE "", pre |-> ref, faulted |-> FALSE]
-Failed(name) == [name |-> name, res |-> "err", pre |-> ref, faulted |-> FALSE]
+  /\ call' = [name |-> name, res |-> IF ops = <<>> THEN "ok" ELSE "", pre |-> ref, faulted |-> FALSE, told |-> TRUE]
+Failed(name) == [name |-> name, res |-> "err", pre |-> ref, faulted |-> FALSE, told |-> TRUE]
 
 \* ---------------------------------------------------------------- API calls
-\* NewFileWriter / ensureWriter
-Open ==
+\* NewFileWriter / ensureWriter (nm: the new file gets a swamp name after its header)
+Open(nm) ==
   /\ Quiescent /\ (~w.open \/ w.wedged)
   /\ cnt' = [cnt EXCEPT !.calls = @ + 1]
   /\ UNCHANGED <<disk, ref, fm, dur, bmaps, crashobs>>
   /\ IF ~disk.ex
-       THEN /\ w' = [ClosedW EXCEPT !.open = TRUE] /\ Begin("open", CreateOps)
+       THEN /\ w' = [ClosedW EXCEPT !.open = TRUE] /\ Begin("open", CreateOps(nm))
      ELSE IF disk.hd = 0
        THEN IF "TornCreate" \in Dev
               THEN /\ w' = w /\ pend' = <<>> /\ call' = Failed("open")   \* header unreadable
-              ELSE /\ w' = [ClosedW EXCEPT !.open = TRUE] /\ Begin("open", CreateOps)            \* start over
+              ELSE /\ w' = [ClosedW EXCEPT !.open = TRUE] /\ Begin("open", CreateOps(nm))            \* start over
      ELSE IF disk.hd = 1 /\ "TornCreate" \notin Dev
-       THEN /\ w' = [ClosedW EXCEPT !.open = TRUE] /\ Begin("open", CreateOps)
+       THEN /\ w' = [ClosedW EXCEPT !.open = TRUE] /\ Begin("open", CreateOps(nm))
      ELSE /\ w' = [ClosedW EXCEPT !.open = TRUE, !.nb = disk.nb, !.ne = disk.ne]
           /\ Begin("open", IF LastTorn(disk) /\ "AppendAfterTorn" \notin Dev THEN <<"trunc">> ELSE <<>>)
 
@@ -166,7 +167,7 @@ FlushOps == (IF w.dirty /\ LastTorn(disk) THEN <<"trunc">> ELSE <<>>) \o <<"bh",
 \* FileWriter.WriteEntry.  fl = the buffer reached the block size with this entry (decided by the
 \* byte sizes, which the model does not carry: the exhaustive configuration takes fl from the
 \* abstract capacity, trace validation takes it from the recorded execution).
-WriteEntry(e, fl) ==
+WriteEntry(e, fl, told) ==
   /\ Quiescent /\ w.open /\ ~w.wedged
   /\ cnt' = [cnt EXCEPT !.writes = @ + 1]
   /\ UNCHANGED <<disk, fm, dur, bmaps, crashobs>>
@@ -178,9 +179,11 @@ WriteEntry(e, fl) ==
             /\ ref' = ApplyE(ref, e)
             /\ IF fl \/ (Count(w.buf) + e.rep >= CntLimit /\ "BlockCount16" \notin Dev)
                  THEN /\ w' = [w EXCEPT !.buf = <<>>, !.cur = Append(w.buf, e)]
-                      /\ Begin("put", FlushOps)
+                      /\ pend' = FlushOps
+                      /\ call' = [name |-> "put", res |-> "", pre |-> ref, faulted |-> FALSE, told |-> told]
                  ELSE /\ w' = [w EXCEPT !.buf = Append(w.buf, e)]
-                      /\ Begin("put", <<>>)
+                      /\ pend' = <<>>
+                      /\ call' = [name |-> "put", res |-> "ok", pre |-> ref, faulted |-> FALSE, told |-> told]
 
 StartFlush(name, tail) ==
   IF w.buf = <<>> THEN /\ w' = w /\ Begin(name, tail)
@@ -199,6 +202,15 @@ Close == /\ Quiescent /\ w.open /\ ~w.wedged
          /\ cnt' = [cnt EXCEPT !.calls = @ + 1]
          /\ UNCHANGED <<disk, ref, fm, dur, bmaps, crashobs>>
 
+\* as built (chronicler.Write): the writer could not be opened, the error is logged and the records of
+\* the batch are forgotten although the caller was told nothing
+PutDropped(e) ==
+  /\ Quiescent /\ ~w.open /\ "WriteErrorsSkipped" \in Dev
+  /\ ref' = ApplyE(ref, e)
+  /\ call' = [name |-> "put", res |-> "err", pre |-> ref, faulted |-> call.faulted, told |-> FALSE]
+  /\ cnt' = [cnt EXCEPT !.writes = @ + 1]
+  /\ UNCHANGED <<disk, w, pend, fm, dur, bmaps, crashobs>>
+
 \* as built: Close on a writer whose earlier Close failed (descriptor already closed)
 CloseWedged ==
   /\ Quiescent /\ w.open /\ w.wedged
@@ -214,7 +226,7 @@ SetLast(s, x) == [s EXCEPT ![Len(s)] = x]
 \* effect of the complete file operation op on the image
 DiskAfter(op) ==
   CASE op = "create" -> [NoDisk EXCEPT !.ex = TRUE]
-    [] op = "hdr0"   -> [disk EXCEPT !.hd = IF Named THEN 1 ELSE 2]
+    [] op = "hdr0"   -> [disk EXCEPT !.hd = IF Len(pend) > 1 /\ pend[2] = "name" THEN 1 ELSE 2]
     [] op = "name"   -> [disk EXCEPT !.hd = 2]
     [] op = "trunc"  -> [disk EXCEPT !.ch = DropLast(@)]
     [] op = "bh"     -> IF w.pos = "mis" THEN disk
@@ -269,7 +281,7 @@ Crash(tear) ==
        /\ disk' = d
        /\ crashobs' = [n |-> crashobs.n + 1, got |-> Load(d), allowed |-> bmaps, unreadable |-> Unreadable(d)]
        /\ ref' = LoadMap(d) /\ fm' = LoadMap(d) /\ dur' = LoadMap(d) /\ bmaps' = {LoadMap(d)}
-  /\ w' = ClosedW /\ pend' = <<>> /\ call' = [name |-> "crash", res |-> "ok", pre |-> Empty, faulted |-> FALSE]
+  /\ w' = ClosedW /\ pend' = <<>> /\ call' = [name |-> "crash", res |-> "ok", pre |-> Empty, faulted |-> FALSE, told |-> TRUE]
   /\ cnt' = [cnt EXCEPT !.crashes = @ + 1]
 
 \* ---------------------------------------------------------------- write faults
@@ -292,7 +304,7 @@ Fault(mode) ==
           \* strict: the entries of the failed block go back into the buffer.  The one entry whose own
           \* WriteEntry call reports the error may be kept for a retry or dropped (its caller was told);
           \* entries accepted by earlier calls must survive.
-          /\ (~keep) => (isPut /\ inFlush /\ "BufferDroppedOnError" \notin Dev)
+          /\ (~keep) => (isPut /\ call.told /\ inFlush /\ "BufferDroppedOnError" \notin Dev)
           /\ LET back == IF keep THEN w.cur ELSE DropLast(w.cur) IN
              w' = CASE call.name = "open" -> ClosedW                     \* NewFileWriter failed
                     [] inFlush /\ "BufferDroppedOnError" \in Dev ->
@@ -330,12 +342,11 @@ RejectNotMangle ==
   /\ \A j \in DOMAIN w.buf : Encodable(w.buf[j])
   /\ \A i \in DOMAIN disk.ch : Count(disk.ch[i].es) <= CntLimit /\ disk.ch[i].n = Count(disk.ch[i].es)
 \* a call fails only because of an injected fault or because the entry cannot be encoded
-NoSpuriousError == (call.res = "err" /\ ~call.faulted) => call.name = "put"
+NoSpuriousError == (call.res = "err" /\ ~call.faulted) => (call.name = "put" /\ call.told)
 
 \* C02, on the load that follows a crash
 NoTornFailure == ~crashobs.unreadable
 FlushBoundary == crashobs.got.m \in crashobs.allowed      \* some flush boundary at or after the last sync
-DurablePreserved == \A k \in Keys : \A m \in crashobs.allowed : TRUE   \* (subsumed by FlushBoundary; kept by name)
 
 \* C25 (and C02 for every untorn cut): at every moment the file is readable and shows a flush
 \* boundary at or after the last completed sync
